@@ -23,9 +23,12 @@ def namespaces():
 def BOUNDS(tier):
     return ("controller programs of <= %d operations over {add_task (with / without a follow-up submission from the task body), "
             "set_thread_count(0..3), shutdown(cancel_pending True/False)} after set_thread_count(1..3); every interleaving with at most %d "
-            "pre-emptions (switches at blocking points are free); 1..2 workers quick, 1..3 thorough." % ((2, 2) if tier == "quick" else (3, 2)))
+            "pre-emptions (switches at blocking points are free); 1..2 workers quick, 1..3 thorough.  BUSY: every worker held by a long-running task, "
+            "then one of {resize 0/1/2, shutdown (cancel / keep), add} and one more operation, 1 pre-emption, 2 workers%s."
+            % ((2, 2, " (without 'resize to 0, then to 3', which is in the thorough tier)") if tier == "quick" else (3, 2, " and 3 workers (resize 0 -> 3 with 2 workers only)")))
 
 
+HEAVY_FIRST = ("resize3:op1=1", "resize3", "add_follow")
 OPS = ("add", "add_follow", "add_gated", "release", "resize0", "resize1", "resize2", "resize3", "shutdown_cancel", "shutdown_keep")
 
 
@@ -40,6 +43,10 @@ def jobs(tier):
         for third in ("resize0", "resize1", "resize2", "shutdown_cancel", "shutdown_keep", "add"):
             js.append(dict(name="BUSY:W%d:%s" % (w, third), workers=w, prefix=["add_gated"] * w + [third], nops=1, P=1))
     js = common.shard(js, "op1", len(OPS), lambda j: "prefix" not in j and (j["workers"] == 2 or j["first"].startswith("resize")))
+    js = common.shard(js, "op_last", len(OPS), lambda j: "prefix" in j)
+    # five or more worker threads at once (all workers busy, resize to 0, then resize to 3) cost ~130 000 schedules: thorough tier, two workers only
+    grow = ":resize0:op_last=%d" % OPS.index("resize3")
+    js = [j for j in js if not (j["name"].endswith(grow) and (tier == "quick" or j["workers"] > 2))]
     return js
 
 
